@@ -1343,7 +1343,7 @@ def np_max(interp, x, axis=None, **kw):
 
 def np_min(interp, x, axis=None, **kw):
     if isinstance(x, RootsV) and x.stage == 'real':
-        return _select_root(interp, x)
+        return _select_root(interp, x, 'min')
     d = _asdata(interp, x)
     if not isinstance(d, list):
         return d
@@ -1850,13 +1850,28 @@ def np_real(interp, x):
     return x
 
 
-def _select_root(interp, rs):
+def _select_root(interp, rs, kind='max'):
+    """the largest / smallest real root: a function of (coefficients, kind);
+    what is known: it is a root, and smallest <= largest"""
     ctx = interp.ctx
-    r = Sym(ctx.fresh('root', 'real'))
-    acc = 0
-    for c in rs.coefs:
-        acc = interp.ops.binop(ADD, interp.ops.binop(MUL, acc, r), c)
-    ctx.assume(interp.ops.equals(acc, 0))
+    from .dsl import _vkey
+    memo = ctx.__dict__.setdefault('root_memo', {})
+    ckey = _vkey(list(rs.coefs))
+
+    def get(k):
+        if (ckey, k) not in memo:
+            r = Sym(ctx.fresh('root_' + k, 'real'))
+            acc = 0
+            for c in rs.coefs:
+                acc = interp.ops.binop(ADD, interp.ops.binop(MUL, acc, r), c)
+            ctx.assume(interp.ops.equals(acc, 0))
+            memo[(ckey, k)] = r
+        return memo[(ckey, k)]
+    r = get(kind)
+    other = 'min' if kind == 'max' else 'max'
+    if (ckey, other) in memo:
+        lo, hi = (memo[(ckey, 'min')], memo[(ckey, 'max')])
+        ctx.assume(interp.ops.compare(ast.LtE(), lo, hi))
     return r
 
 
